@@ -76,6 +76,47 @@ def check(g, ev, model, timeout_ms):
                 out["violation"] = {"kind": "wrong", "params": params_to_json(params), "p_new": str(a), "p_orig": str(b)}
                 return out
         out["violation"] = {"kind": "noreplay"}
+        return out
+    # The graph is a causal diagram of the relabelled variables: event nodes in different connected components
+    # (directed and bidirected edges together) are claimed to share neither causes nor noise, so they must be
+    # independent in every compatible model.  (A construction that forgets to link two copies of a variable across
+    # worlds leaves the event's probability intact but makes exactly this claim wrongly.)
+    import networkx as nx
+
+    skel = nx.Graph()
+    skel.add_nodes_from(cf_graph.nodes())
+    skel.add_edges_from(cf_graph.directed.edges())
+    skel.add_edges_from(cf_graph.undirected.edges())
+    comp = {}
+    for i, c in enumerate(nx.connected_components(skel)):
+        for n in c:
+            comp[n] = i
+    keyed = [(k, from_y0_event({k: v})[0]) for k, v in new_event.items()]  # one atom per graph node, paired explicitly
+    for i in range(len(keyed)):
+        for j in range(i + 1, len(keyed)):
+            (k1, a1), (k2, a2) = keyed[i], keyed[j]
+            if comp[k1] == comp[k2]:
+                continue
+            p1 = model.prob_cw(TARGET, atoms_for_model((a1,)))
+            p2 = model.prob_cw(TARGET, atoms_for_model((a2,)))
+            p12 = model.prob_cw(TARGET, atoms_for_model((a1, a2)))
+            verdict, m, dt = Decider(model.constraints, timeout_ms, model.params).differ(p12, p1 * p2)
+            out["queries"] += 1
+            out["secs"] += dt
+            if verdict == "unknown":
+                out["verdict"] = "unknown"
+            if verdict == "sat":
+                for params in [model.model_to_params(m)] + [grid_params(model.params, s) for s in range(4)]:
+                    try:
+                        w = exact.ExactL3(g, params)
+                        x1, x2, x12 = (w.prob_cw(TARGET, atoms_for_model(t)) for t in ((a1,), (a2,), (a1, a2)))
+                    except Exception:  # noqa: BLE001
+                        continue
+                    if x12 != x1 * x2:
+                        out["violation"] = {"kind": "dependent_components", "params": params_to_json(params), "why": f"{ev_str((a1,))} and {ev_str((a2,))} lie in different connected components of the counterfactual graph but are dependent: P(both) = {x12}, product of marginals = {x1 * x2}"}
+                        return out
+                out["violation"] = {"kind": "noreplay"}
+                return out
     return out
 
 
@@ -129,7 +170,7 @@ def jobs_for(t):
             add(g, events(g.nodes, 3, 2))
         for g in family(3, labellings=("fwd",), n_min=3):
             add(g, events(g.nodes, 2, 1))
-            add(g, events(g.nodes, 3, 1, stride=24, offset=seed()))
+            add(g, events(g.nodes, 3, 1, max_worlds=3, stride=36, offset=seed()))
             add(g, multi_parent_events(g))
         # a seed-chosen slice of the 4-node classes (bugs that need a chain of three plus a confounded or extra node)
         for i, g in enumerate(family(4, labellings=("fwd",), n_min=4)):
@@ -169,6 +210,7 @@ def run() -> int:
         "a node of the counterfactual graph is read as 'base variable under the interventions in its subscript'; the relabelled event is the conjunction of its items",
         "the structural clauses (acyclic, exactly the ancestors of the event, event variables are nodes) are plain assertions on every concrete output, not solver-decided",
     ]
+    rep.assumptions.append("the returned graph is also read as a causal diagram of the relabelled variables: two event nodes in different connected components (directed and bidirected edges together) must be independent in every compatible model (z3 decides P(a, b) = P(a) P(b) over the response-type model)")
     rep.rule = "cases = (graph, event); non-trivial = the relabelled event differs from the input event (a merge happened) and the solver compared the two probabilities; distinct by (graph key, event)"
     for job, st, res in pmap(work, jobs_for(t)):
         if st != "ok":
@@ -190,7 +232,7 @@ def run() -> int:
             rep.obligations += r["queries"]
             rep.solver_s += r["secs"]
             if r["verdict"] == "unsat":
-                rep.discharged += 1
+                rep.discharged += r["queries"] if not r["violation"] else 1
                 if r.get("new") and r["new"] != r["evs"]:
                     rep.nontrivial.add(key)
                     if len(rep.samples) < 8:
@@ -234,6 +276,10 @@ def replay(payload: dict) -> int:
         b = w.prob_cw(TARGET, atoms_for_model(ev))
         print(f"P(relabelled) = {a}, P(original) = {b}")
         bad = a != b
+    elif kind == "dependent_components" and new_event is not None:
+        r = check(g, ev, SymL3(g), 30000)
+        print(r.get("violation"))
+        bad = r.get("violation") is not None and r["violation"]["kind"] == "dependent_components"
     else:
         bad = False
     print("reproduced" if bad else "not reproduced")
